@@ -240,7 +240,7 @@ class C05(E1Prop):
                 H("prop_C05_n2", "prop_C05.cpp", shards=8, defines=["VF_GROUP=1"], flags=b),
                 H("prop_C05_n2_nobmi2", "prop_C05.cpp", shards=8, defines=["VF_GROUP=1"]),
                 H("prop_C05_n4", "prop_C05.cpp", shards=9, defines=["VF_GROUP=2"], flags=b),
-                H("prop_C05_stacks", "prop_C05.cpp", shards=9, defines=["VF_GROUP=3"], flags=b),
+                H("prop_C05_stacks", "prop_C05.cpp", shards=14, defines=["VF_GROUP=3"], flags=b),
                 H("prop_C05_cuda_shim", "prop_C05.cpp", shards=4, defines=["VF_GROUP=4"], flags=b,
                   extra_inc=[core.REPO + "/lib/cuda", core.HARNESS + "/cuda_shim"])]
 
